@@ -41,10 +41,14 @@ pub fn produce(stream: &[Ev], o: &Opts) -> Reports {
         1 => Verbosity::ShowWorld,
         _ => Verbosity::ShowWorldAndDocString,
     };
+    // `Basic::apply_cli` reads `verbose` as the number of `-v` flags: 0 keeps the constructor's
+    // level, 1 = Default, 2 = ShowWorld, 3 = ShowWorldAndDocString. Passing the level itself (as was
+    // done before round 13) silently lowered level 2 to ShowWorld, so doc strings were never shown.
+    let cli_verbose = o.verbosity + 1;
     let basic = guarded(|| {
         let sink = Sink::default();
         let mut w = writer::Normalize::<W, _>::new(writer::Basic::raw(sink.clone(), Coloring::Never, verb));
-        let cli = writer::basic::Cli { verbose: o.verbosity, color: Coloring::Never };
+        let cli = writer::basic::Cli { verbose: cli_verbose, color: Coloring::Never };
         for e in stream {
             block_on(w.handle_event(e.clone(), &cli));
         }
@@ -53,7 +57,7 @@ pub fn produce(stream: &[Ev], o: &Opts) -> Reports {
     let basic_tty = guarded(|| {
         let sink = Sink::default();
         let mut w = writer::Normalize::<W, _>::new(writer::Basic::raw(sink.clone(), Coloring::Always, verb));
-        let cli = writer::basic::Cli { verbose: o.verbosity, color: Coloring::Always };
+        let cli = writer::basic::Cli { verbose: cli_verbose, color: Coloring::Always };
         for e in stream {
             block_on(w.handle_event(e.clone(), &cli));
         }
